@@ -5,7 +5,7 @@ CONSTANTS
   MaxRoute = 2
   ViaLens = {1}
   RRLens = {0}
-  ToClasses = {"exact", "wild", "default", "none"}
+  ToClasses = {"exact", "wild", "default", "none", "ext", "pre"}
   RuriClasses = {"lit", "userhost", "regex", "urn", "tel", "listener", "listener.wrongport", "foreign"}
   Keeps = {TRUE, FALSE}
   LPorts = {5060, 5070}
